@@ -76,6 +76,10 @@ pub struct Ctx {
     pub per_type: std::collections::BTreeMap<String, usize>,
     /// already sent requests (dedup)
     pub seen: std::collections::HashSet<u64>,
+    /// covered types whose reader takes external arguments: type -> argument names (`ReadArgs` order)
+    pub covered_args: std::collections::BTreeMap<String, Vec<String>>,
+    /// reader type -> offset field -> names of the fields / arguments the generated getter passes to the child
+    pub child_args: std::collections::BTreeMap<String, std::collections::BTreeMap<String, Vec<String>>>,
 }
 
 fn first_diff(a: &str, b: &str) -> String {
@@ -213,9 +217,14 @@ where
     Some(b1)
 }
 
-fn load_report() -> (std::collections::BTreeSet<String>, Vec<String>) {
+type ArgMap = std::collections::BTreeMap<String, Vec<String>>;
+type ChildArgs = std::collections::BTreeMap<String, std::collections::BTreeMap<String, Vec<String>>>;
+
+fn load_report() -> (std::collections::BTreeSet<String>, Vec<String>, ArgMap, ChildArgs) {
     let mut out = std::collections::BTreeSet::new();
     let mut notes = vec![];
+    let mut covered_args = ArgMap::new();
+    let mut child_args = ChildArgs::new();
     let p = std::env::var("C04_REPORT").unwrap_or_else(|_| "/verif/out/C04.writers.py.json".into());
     if let Ok(txt) = std::fs::read_to_string(&p) {
         if let Ok(v) = serde_json::from_str::<serde_json::Value>(&txt) {
@@ -226,14 +235,41 @@ fn load_report() -> (std::collections::BTreeSet<String>, Vec<String>) {
                     }
                 }
             }
+            let strs = |x: &serde_json::Value| x.as_array().map(|a| a.iter().filter_map(|y| y.as_str().map(String::from)).collect::<Vec<_>>()).unwrap_or_default();
+            if let Some(m) = v.get("covered_args").and_then(|x| x.as_object()) {
+                for (k, a) in m {
+                    covered_args.insert(k.clone(), strs(a));
+                }
+            }
+            if let Some(m) = v.get("child_args").and_then(|x| x.as_object()) {
+                for (k, fm) in m {
+                    if let Some(fm) = fm.as_object() {
+                        child_args.insert(k.clone(), fm.iter().map(|(f, a)| (f.clone(), strs(a))).collect());
+                    }
+                }
+            }
             let n = |k: &str| v.get(k).and_then(|x| x.as_u64()).unwrap_or(0);
+            if let Some(m) = v.get("features").and_then(|x| x.as_object()) {
+                let mut items: Vec<String> = m.iter().map(|(k, a)| format!("{k}: {}", a.as_array().map(|a| a.len()).unwrap_or(0))).collect();
+                items.sort();
+                notes.push(format!("translator: pairs using the round-4 DSL features (a pair may use several): {}", items.join(", ")));
+            }
+            notes.push(format!(
+                "translator: {} of {} generated format enums (FontWrite `match self` / FontRead `match format`) covered by enum_read_write (kernel-checked `enumCompat`)",
+                v.get("enums_covered").and_then(|x| x.as_object()).map(|m| m.len()).unwrap_or(0), n("enums_in_generated")
+            ));
+            if let Some(m) = v.get("enums_not_covered").and_then(|x| x.as_object()) {
+                let mut items: Vec<String> = m.iter().map(|(k, r)| format!("{k} ({})", r.as_str().unwrap_or("?").chars().take(200).collect::<String>())).collect();
+                items.sort();
+                notes.push(format!("translator format enums NOT covered ({}): {}", items.len(), items.join("; ")));
+            }
             notes.push(format!(
                 "translator: {} of {} generated FontWrite impls translated to (writer program, reader layout) pairs ({} writer statements consumed); {} round-trip unconditionally (compat), {} only under listed count/length conditions (compatU); {} NOT covered by the theorems",
                 n("pairs_translated"), n("writers_in_generated"), n("writer_statements_consumed"), n("pairs_unconditional"),
                 n("pairs_translated") - n("pairs_unconditional"), n("pairs_not_covered")
             ));
             if let Some(m) = v.get("not_covered").and_then(|x| x.as_object()) {
-                let mut items: Vec<String> = m.iter().map(|(k, r)| format!("{k} ({})", r.as_str().unwrap_or("?").chars().take(90).collect::<String>())).collect();
+                let mut items: Vec<String> = m.iter().map(|(k, r)| format!("{k} ({})", r.as_str().unwrap_or("?").chars().take(200).collect::<String>())).collect();
                 items.sort();
                 notes.push(format!("translator NOT covered ({}): {}", items.len(), items.join("; ")));
             }
@@ -247,14 +283,16 @@ fn load_report() -> (std::collections::BTreeSet<String>, Vec<String>) {
             }
         }
     }
-    (out, notes)
+    (out, notes, covered_args, child_args)
 }
 
 fn run(cfg: &Config, s: &mut Session) {
-    let (covered, notes) = load_report();
+    let (covered, notes, covered_args, child_args) = load_report();
     s.notes.extend(notes);
     let mut cx = Ctx {
         covered,
+        covered_args,
+        child_args,
         per_type_cap: if cfg.thorough() { 4000 } else { 400 },
         per_type: Default::default(),
         seen: Default::default(),
